@@ -94,6 +94,21 @@ def relayout_line(rng, line):
     return indent + body + tail
 
 
+def block_comment(rng):
+    """A '/* */' comment with arbitrary content (no '*/' inside): slashes and stars next to the delimiters, the
+    toggle idiom, statements, quotes, braces, newlines, characters other conventions treat as line ends."""
+    if rng.random() < 0.3:
+        return rng.choice(["/*/ off\n lda #1\n .db 1, 2\n/**/", "/*// old //*/", "/*** x ***/", "/***/", "/* * / */", "/*/*/",
+                           "/*/ nop */", "/* sep\u2028arator \x0c \x85 */", "/* 'quote */", "/* ; */", "/*\n*/", "/* /* */"])
+    alphabet = ["/", "*", " ", "\n", ";", "'", "{", "}", "lda #1", ".db 9", "x:", "\t", "\x0c", "é", ",", "(", "*=", "0x"]
+    body = "".join(rng.choice(alphabet) for _ in range(rng.randrange(0, 12)))
+    while "*/" in body:
+        body = body.replace("*/", "* /")
+    if body.endswith("*") and False:
+        body += " "
+    return "/*" + body + "*/"
+
+
 def relayout(rng, src):
     lines = src.rstrip("\n").split("\n")
     out = []
@@ -102,9 +117,9 @@ def relayout(rng, src):
         if r < 0.15:
             out.append("")
         elif r < 0.25:
-            out.append(rng.choice(["", "  ", "\t"]) + "; " + rng.choice(["comment", "lda #1", "}", "{", ".db 1"]))
+            out.append(rng.choice(["", "  ", "\t"]) + "; " + rng.choice(["comment", "lda #1", "}", "{", ".db 1", "/* open", "*/", "page\x0cbreak", "'", "é\u2028x"]))
         elif r < 0.32:
-            out.append(rng.choice(["/* block */", "/* multi\n line } { \n*/", "/**/", "  /* lda #1 ; x */"]))
+            out.append(rng.choice(["/* block */", "/* multi\n line } { \n*/", "/**/", "  /* lda #1 ; x */", block_comment(rng)]))
         out.append(relayout_line(rng, ln))
     return "\n".join(out) + rng.choice(["\n", "", "\n\n", "\n  \n"])
 
